@@ -130,7 +130,7 @@ Definition stmt_site (s : stmt) : option (site * vexpr) :=
   | SNop | SPanic _ | SSeq _ => None
   | SSimple sp e pt p => Some ((sp, "if ! matches ! ( $0 , $1 ) { $2 }", [pp_vexpr e; pt; pp_push p], 0), e)
   | SString sp e lit lsp p =>
-      Some ((sp, "{ let __assert_struct_tmp = & ( $0 ) ; let __assert_struct_actual = ( * __assert_struct_tmp ) . as_ref ( ) ; if ! matches ! ( __assert_struct_actual , $1 ) { $2 } }",
+      Some ((sp, "{ match & ( $0 ) { __assert_struct_scrutinee => { let __assert_struct_tmp = __assert_struct_scrutinee ; let __assert_struct_actual = ( * __assert_struct_tmp ) . as_ref ( ) ; if ! matches ! ( __assert_struct_actual , $1 ) { $2 } } } }",
              [pp_vexpr e; [TLit lit lsp]; pp_push p], 0), e)
   | SCmp sp op e x p =>
       Some ((sp, ("# [ allow ( clippy :: nonminimal_bool ) ] if ! ( ( $0 ) . " ++ cmp_method op ++ " ( & ( $1 ) ) ) { $2 }")%string,
